@@ -39,6 +39,12 @@ type trec struct {
 	Zero  bool   `json:"zero"`
 	// digs: positions (parse) or digit classes (present)
 	Digs json.RawMessage `json:"digs"`
+	Raw  *struct {
+		Ok   bool  `json:"ok"`
+		Neg  bool  `json:"neg"`
+		Base int   `json:"base"`
+		Digs []int `json:"digs"`
+	} `json:"raw"`
 }
 
 func pick(rnd *rand.Rand, variant int, s string) byte {
@@ -139,6 +145,24 @@ func runParse(r *trec, variant int, rnd *rand.Rand) (string, *fail) {
 	if ok := tintOK(s); ok != r.TInt {
 		return s, &fail{false, "tint", fmt.Sprintf("validator t_int(%q) = %v, spec says %v", s, ok, r.TInt)}
 	}
+	if r.Raw != nil { // the same characters as a bare JSON value
+		var h common.HexInt
+		err := h.UnmarshalJSON([]byte(s))
+		wantRaw := new(big.Int)
+		if r.Raw.Ok {
+			ds := make([]byte, len(r.Raw.Digs))
+			for i, p := range r.Raw.Digs {
+				ds[i] = bs[p-1]
+			}
+			wantRaw.SetString(string(ds), r.Raw.Base)
+			if r.Raw.Neg {
+				wantRaw.Neg(wantRaw)
+			}
+		}
+		if (err == nil) != r.Raw.Ok || (err == nil && h.Int.Cmp(wantRaw) != 0) {
+			return s, &fail{r.Canon, "hexint:raw", fmt.Sprintf("HexInt.UnmarshalJSON(%s) (bare) = %s, %v; spec ok=%v value %s", s, h.Int.String(), err, r.Raw.Ok, wantRaw)}
+		}
+	}
 	return s, nil
 }
 
@@ -203,8 +227,15 @@ func hexWrap(kind string, width int, x *big.Int) (str string, back *big.Int, err
 }
 
 // the fixed-width wrappers reading a text: accepted value or error
+func hexReadRaw(kind string, width int, text string) (*big.Int, error) {
+	return hexReadJS(kind, width, []byte(text))
+}
+
 func hexRead(kind string, width int, text string) (*big.Int, error) {
-	js := []byte(`"` + text + `"`)
+	return hexReadJS(kind, width, []byte(`"`+text+`"`))
+}
+
+func hexReadJS(kind string, width int, js []byte) (*big.Int, error) {
 	switch kind + fmt.Sprint(width) {
 	case "i4":
 		var w common.HexInt16
@@ -318,6 +349,15 @@ func runPresent(r *trec, variant int, rnd *rand.Rand) (string, *fail) {
 	}
 	if err != nil || back.Cmp(x) != 0 {
 		return text, &fail{true, "roundtrip:" + key, fmt.Sprintf("%s formats as %q which parses (%d bits) as %s (%v)", x, s, bits, back, err)}
+	}
+	if rawv, rerr := hexReadRaw(r.Kind, r.Width, text); rerr != nil || rawv.Cmp(x) != 0 {
+		return text, &fail{true, "roundtrip:raw" + key, fmt.Sprintf("Hex wrapper %s reading the bare JSON value %s gives %s (%v)", key, text, rawv, rerr)}
+	}
+	if r.Kind == "i" && r.Width == 16 {
+		j := jsonrpc.HexInt(text)
+		if v, err := j.Int64(); err != nil || v != x.Int64() || j.Value() != x.Int64() {
+			return text, &fail{true, "jsonrpc:int64", fmt.Sprintf("jsonrpc.HexInt(%q).Int64() = %d, %v", text, v, err)}
+		}
 	}
 	hs, hback, herr := hexWrap(r.Kind, r.Width, x)
 	if herr != nil || hback.Cmp(x) != 0 {
